@@ -248,6 +248,8 @@ Record eopts := {
   o_items_sizer : bool;           (* cfg.Sizer = items (else requests) *)
   o_cap : Z;                      (* cfg.QueueSize *)
   o_wfr : bool;                   (* cfg.WaitForResult *)
+  o_block : bool;                 (* cfg.BlockOnOverflow *)
+  o_badmarshal : Z;               (* item count of the requests the queue's Encoding refuses to marshal (-1: none) *)
   o_qbatch : option (Z * Z);      (* cfg.Batch: (MinSize, MaxSize), items sizer (config.Validate) *)
   o_batcher : option (Z * Z);     (* legacy WithBatcher: (MinSize, MaxSize) *)
   o_retry : bool;
@@ -259,6 +261,7 @@ Record qcfg := {
   q_items_sizer : bool;
   q_cap : option Z;               (* None = math.MaxInt *)
   q_wfr : bool;
+  q_block : bool;
   q_batch : option (Z * Z) }.
 
 (* base_exporter.go `if be.queueCfg.Enabled || be.batcherCfg.Enabled` + queue_sender.go newQueueBatchConfig *)
@@ -267,13 +270,13 @@ Definition new_queue_batch_config (o : eopts) : option qcfg :=
   | None =>
       if o_queue o
       then Some {| q_storage := o_storage o; q_items_sizer := o_items_sizer o; q_cap := Some (o_cap o);
-                   q_wfr := o_wfr o; q_batch := o_qbatch o |}
+                   q_wfr := o_wfr o; q_block := o_block o; q_batch := o_qbatch o |}
       else None
   | Some b =>
       if o_queue o
       then Some {| q_storage := o_storage o; q_items_sizer := o_items_sizer o; q_cap := Some (o_cap o);
-                   q_wfr := o_wfr o; q_batch := Some b |}
-      else Some {| q_storage := false; q_items_sizer := false; q_cap := None; q_wfr := true; q_batch := Some b |}
+                   q_wfr := o_wfr o; q_block := o_block o; q_batch := Some b |}
+      else Some {| q_storage := false; q_items_sizer := false; q_cap := None; q_wfr := true; q_block := true; q_batch := Some b |}
   end.
 
 (* a Done handle of the queue: which request, its size in the queue's unit, its item count *)
@@ -299,19 +302,23 @@ Record est := {
   s_shut : Z;                         (* items of exports that ended with the shutdown error *)
   s_kept : Z;                         (* items of requests left in storage by a shutdown-class OnDone *)
   s_wfr_failed : Z;                   (* items of wait-for-result offers that returned the export error *)
-  s_gauges : list Z                   (* queue-size gauge readings *)
+  s_gauges : list Z;                  (* queue-size gauge readings *)
+  s_sends : list Z                    (* what each Send through a queue returned: 0 nil | 1 ErrQueueIsFull |
+                                         2 errSizeTooLarge | 4 the Encoding's marshal error (persistent queue) |
+                                         3 the producer's context error (gave up while
+                                         blocked on a full queue); not recorded with wait_for_result *)
 }.
 
 Definition set_led (st : est) (l : ledger) : est :=
   {| s_led := l; s_outs := s_outs st; s_next := s_next st; s_queue := s_queue st; s_qsize := s_qsize st;
      s_ref := s_ref st; s_cur := s_cur st; s_flushq := s_flushq st; s_hung := s_hung st; s_down := s_down st;
      s_offered := s_offered st; s_stored := s_stored st; s_shut := s_shut st; s_kept := s_kept st;
-     s_wfr_failed := s_wfr_failed st; s_gauges := s_gauges st |}.
+     s_wfr_failed := s_wfr_failed st; s_gauges := s_gauges st; s_sends := s_sends st |}.
 
 Definition init_est (outs : list aout) : est :=
   {| s_led := []; s_outs := outs; s_next := O; s_queue := []; s_qsize := 0; s_ref := []; s_cur := None;
      s_flushq := []; s_hung := None; s_down := false; s_offered := 0; s_stored := 0; s_shut := 0;
-     s_kept := 0; s_wfr_failed := 0; s_gauges := [] |}.
+     s_kept := 0; s_wfr_failed := 0; s_gauges := []; s_sends := [] |}.
 
 Section Exporter.
   Variable o : eopts.
@@ -337,7 +344,7 @@ Section Exporter.
        s_shut := s_shut st;
        s_kept := if keep then s_kept st + d_items d else s_kept st;
        s_wfr_failed := if wf then s_wfr_failed st + d_items d else s_wfr_failed st;
-       s_gauges := s_gauges st |}.
+       s_gauges := s_gauges st; s_sends := s_sends st |}.
 
   (* multierr.Append(acc, err) seen through experr.IsShutdownErr / == nil *)
   Definition comb (a b : eres) : eres :=
@@ -364,7 +371,7 @@ Section Exporter.
     {| s_led := s_led st; s_outs := s_outs st; s_next := s_next st; s_queue := s_queue st; s_qsize := s_qsize st;
        s_ref := r; s_cur := s_cur st; s_flushq := s_flushq st; s_hung := s_hung st; s_down := s_down st;
        s_offered := s_offered st; s_stored := s_stored st; s_shut := s_shut st; s_kept := s_kept st;
-       s_wfr_failed := s_wfr_failed st; s_gauges := s_gauges st |}.
+       s_wfr_failed := s_wfr_failed st; s_gauges := s_gauges st; s_sends := s_sends st |}.
 
   (* Done.OnDone(err): a plain queue Done, or a refCountDone in front of it *)
   Definition fire (r : eres) (st : est) (d : done) : est :=
@@ -389,7 +396,7 @@ Section Exporter.
         {| s_led := s_led st; s_outs := outs'; s_next := s_next st; s_queue := s_queue st; s_qsize := s_qsize st;
            s_ref := s_ref st; s_cur := s_cur st; s_flushq := s_flushq st; s_hung := Some f; s_down := s_down st;
            s_offered := s_offered st; s_stored := s_stored st; s_shut := s_shut st; s_kept := s_kept st;
-           s_wfr_failed := s_wfr_failed st; s_gauges := s_gauges st |}
+           s_wfr_failed := s_wfr_failed st; s_gauges := s_gauges st; s_sends := s_sends st |}
     | (XDone r, outs') =>
         fire_all r ds
           {| s_led := s_led st ++ obs_end_op (o_tracing o) sg items r; s_outs := outs'; s_next := s_next st;
@@ -397,20 +404,20 @@ Section Exporter.
              s_flushq := s_flushq st; s_hung := s_hung st; s_down := s_down st;
              s_offered := s_offered st; s_stored := s_stored st;
              s_shut := if eres_is_shutdown r then s_shut st + items else s_shut st;
-             s_kept := s_kept st; s_wfr_failed := s_wfr_failed st; s_gauges := s_gauges st |}
+             s_kept := s_kept st; s_wfr_failed := s_wfr_failed st; s_gauges := s_gauges st; s_sends := s_sends st |}
     end.
 
   Definition set_flushq (st : est) (q : list flushrec) : est :=
     {| s_led := s_led st; s_outs := s_outs st; s_next := s_next st; s_queue := s_queue st; s_qsize := s_qsize st;
        s_ref := s_ref st; s_cur := s_cur st; s_flushq := q; s_hung := s_hung st; s_down := s_down st;
        s_offered := s_offered st; s_stored := s_stored st; s_shut := s_shut st; s_kept := s_kept st;
-       s_wfr_failed := s_wfr_failed st; s_gauges := s_gauges st |}.
+       s_wfr_failed := s_wfr_failed st; s_gauges := s_gauges st; s_sends := s_sends st |}.
 
   Definition set_cur (st : est) (c : option flushrec) : est :=
     {| s_led := s_led st; s_outs := s_outs st; s_next := s_next st; s_queue := s_queue st; s_qsize := s_qsize st;
        s_ref := s_ref st; s_cur := c; s_flushq := s_flushq st; s_hung := s_hung st; s_down := s_down st;
        s_offered := s_offered st; s_stored := s_stored st; s_shut := s_shut st; s_kept := s_kept st;
-       s_wfr_failed := s_wfr_failed st; s_gauges := s_gauges st |}.
+       s_wfr_failed := s_wfr_failed st; s_gauges := s_gauges st; s_sends := s_sends st |}.
 
   (* the single worker (workerPool of size 1 / the single consumer) runs the waiting flushes in
      order until one hangs in the back-off *)
@@ -495,7 +502,7 @@ Section Exporter.
           {| s_led := s_led st; s_outs := s_outs st; s_next := s_next st; s_queue := t; s_qsize := qs;
              s_ref := s_ref st; s_cur := s_cur st; s_flushq := s_flushq st; s_hung := s_hung st; s_down := s_down st;
              s_offered := s_offered st; s_stored := s_stored st; s_shut := s_shut st; s_kept := s_kept st;
-             s_wfr_failed := s_wfr_failed st; s_gauges := s_gauges st |}
+             s_wfr_failed := s_wfr_failed st; s_gauges := s_gauges st; s_sends := s_sends st |}
           {| d_id := id; d_el := el_size n; d_items := n |}
     end.
 
@@ -529,7 +536,7 @@ Section Exporter.
     {| s_led := s_led st; s_outs := s_outs st; s_next := s_next st; s_queue := s_queue st; s_qsize := s_qsize st;
        s_ref := s_ref st; s_cur := s_cur st; s_flushq := s_flushq st; s_hung := s_hung st; s_down := s_down st;
        s_offered := s_offered st + n; s_stored := s_stored st; s_shut := s_shut st; s_kept := s_kept st;
-       s_wfr_failed := s_wfr_failed st; s_gauges := s_gauges st |}.
+       s_wfr_failed := s_wfr_failed st; s_gauges := s_gauges st; s_sends := s_sends st |}.
 
   (* accept into the queue: memoryQueue.add / persistentQueue.putInternal after the capacity check *)
   Definition accept (st : est) (n : Z) : est :=
@@ -538,11 +545,26 @@ Section Exporter.
        s_ref := s_ref st; s_cur := s_cur st; s_flushq := s_flushq st; s_hung := s_hung st; s_down := s_down st;
        s_offered := s_offered st;
        s_stored := if is_storage then s_stored st + n else s_stored st;
-       s_shut := s_shut st; s_kept := s_kept st; s_wfr_failed := s_wfr_failed st; s_gauges := s_gauges st |}.
+       s_shut := s_shut st; s_kept := s_kept st; s_wfr_failed := s_wfr_failed st; s_gauges := s_gauges st; s_sends := s_sends st |}.
 
   Definition reject (st : est) (n : Z) : est := set_led st (s_led st ++ obs_enqueue_failed sg n).
 
   Definition over (cap : option Z) (x : Z) : bool := match cap with Some c => c <? x | None => false end.
+
+  (* what the Send returned to its caller (not recorded with wait_for_result, where it is the export's result) *)
+  Definition note_send (st : est) (k : Z) : est :=
+    if is_wfr then st else
+    {| s_led := s_led st; s_outs := s_outs st; s_next := s_next st; s_queue := s_queue st; s_qsize := s_qsize st;
+       s_ref := s_ref st; s_cur := s_cur st; s_flushq := s_flushq st; s_hung := s_hung st; s_down := s_down st;
+       s_offered := s_offered st; s_stored := s_stored st; s_shut := s_shut st; s_kept := s_kept st;
+       s_wfr_failed := s_wfr_failed st; s_gauges := s_gauges st; s_sends := s_sends st ++ [k] |}.
+
+  (* memoryQueue.add / persistentQueue.putInternal when there is no room: without block_on_overflow
+     ErrQueueIsFull; with it the producer waits on hasMoreSpace.Wait(ctx) - in the sequential schedules of
+     this model no room appears while it waits, so it gives up when its context ends and Wait returns
+     ctx.Err().  Either way obs_queue.go Offer sees a non-nil error and counts the items enqueue_failed. *)
+  Definition no_room (c : qcfg) (st : est) (n : Z) : est :=
+    note_send (reject st n) (if q_block c then 3 else 1).
 
   (* BaseExporter.Send: with a queue obs_queue.go Offer -> memory_queue.go Offer / persistent putInternal;
      without a queue the obs-report sender is the first sender (synchronous export, no Done) *)
@@ -553,18 +575,21 @@ Section Exporter.
     | Some c =>
         let el := el_size n in
         if q_storage c
-        then (if over (q_cap c) (s_qsize st + el) then reject st n else accept st n)
-        else if el =? 0 then st                                  (* `if elSize == 0 { return nil }` *)
-        else if over (q_cap c) el then reject st n               (* errSizeTooLarge *)
-        else if over (q_cap c) (s_qsize st + el) then reject st n  (* ErrQueueIsFull *)
-        else accept st n
+        then (if q_block c && over (q_cap c) el then note_send (reject st n) 2   (* persistent putInternal: `blockOnOverflow && reqSize > capacity` -> errSizeTooLarge *)
+              else if over (q_cap c) (s_qsize st + el) then no_room c st n
+              else if n =? o_badmarshal o then note_send (reject st n) 4   (* `reqBuf, err := encoding.Marshal(req); if err != nil { return err }` *)
+              else note_send (accept st n) 0)
+        else if el =? 0 then note_send st 0                      (* `if elSize == 0 { return nil }` *)
+        else if over (q_cap c) el then note_send (reject st n) 2 (* errSizeTooLarge *)
+        else if over (q_cap c) (s_qsize st + el) then no_room c st n  (* ErrQueueIsFull / ctx.Err() *)
+        else note_send (accept st n) 0
     end.
 
   Definition gauge (st : est) : est :=
     {| s_led := s_led st; s_outs := s_outs st; s_next := s_next st; s_queue := s_queue st; s_qsize := s_qsize st;
        s_ref := s_ref st; s_cur := s_cur st; s_flushq := s_flushq st; s_hung := s_hung st; s_down := s_down st;
        s_offered := s_offered st; s_stored := s_stored st; s_shut := s_shut st; s_kept := s_kept st;
-       s_wfr_failed := s_wfr_failed st; s_gauges := s_gauges st ++ [s_qsize st] |}.
+       s_wfr_failed := s_wfr_failed st; s_gauges := s_gauges st ++ [s_qsize st]; s_sends := s_sends st |}.
 
   (* defaultBatcher.flushCurrentBatchIfNecessary (timer goroutine / Shutdown) *)
   Definition flush_cur (st : est) : est :=
@@ -595,7 +620,7 @@ Section Exporter.
     {| s_led := s_led st; s_outs := s_outs st; s_next := s_next st; s_queue := s_queue st; s_qsize := s_qsize st;
        s_ref := s_ref st; s_cur := s_cur st; s_flushq := s_flushq st; s_hung := s_hung st; s_down := true;
        s_offered := s_offered st; s_stored := s_stored st; s_shut := s_shut st; s_kept := s_kept st;
-       s_wfr_failed := s_wfr_failed st; s_gauges := s_gauges st |}.
+       s_wfr_failed := s_wfr_failed st; s_gauges := s_gauges st; s_sends := s_sends st |}.
 
   (* the hung export is released by stopCh: it returns experr.NewShutdownErr *)
   Definition release_hung (st : est) : est :=
@@ -607,7 +632,7 @@ Section Exporter.
              s_queue := s_queue st; s_qsize := s_qsize st; s_ref := s_ref st; s_cur := s_cur st;
              s_flushq := s_flushq st; s_hung := None; s_down := s_down st;
              s_offered := s_offered st; s_stored := s_stored st; s_shut := s_shut st + items;
-             s_kept := s_kept st; s_wfr_failed := s_wfr_failed st; s_gauges := s_gauges st |}
+             s_kept := s_kept st; s_wfr_failed := s_wfr_failed st; s_gauges := s_gauges st; s_sends := s_sends st |}
     end.
 
   (* BaseExporter.Shutdown: RetrySender.Shutdown (close stopCh), QueueSender.Shutdown =
